@@ -36,10 +36,24 @@ GRID = 'photutils/psf/gridded_models.py'
 IMG = 'photutils/psf/image_models.py'
 ISO = 'photutils/isophote/geometry.py'
 BKG = 'photutils/background/background_2d.py'
-FILES = [BBOX, CORE, RND, GRID, IMG, ISO, BKG]
-DEPENDS = {BBOX: ['C01_GenEq.v', 'C02_GenEq.v'], CORE: ['C01_GenEq.v'], RND: ['C17_GenEq.v'],
-           GRID: ['C13_GenEq.v'], IMG: ['C13_GenEq.v'], ISO: ['C20_GenEq.v'], BKG: ['C11_GenEq.v']}
-ALL_EQ = ['C01_GenEq.v', 'C02_GenEq.v', 'C11_GenEq.v', 'C13_GenEq.v', 'C17_GenEq.v', 'C20_GenEq.v']
+DCORE = 'photutils/detection/core.py'
+PEAK = 'photutils/detection/peakfinder.py'
+SEG = 'photutils/segmentation/core.py'
+SUTIL = 'photutils/segmentation/utils.py'
+SDET = 'photutils/segmentation/detect.py'
+PPHOT = 'photutils/psf/photometry.py'
+CIRC = 'photutils/aperture/circle.py'
+ELL = 'photutils/aperture/ellipse.py'
+RECT = 'photutils/aperture/rectangle.py'
+STATS = 'photutils/aperture/stats.py'
+FILES = [BBOX, CORE, RND, GRID, IMG, ISO, BKG, DCORE, PEAK, SEG, SUTIL, SDET, PPHOT, CIRC, ELL, RECT, STATS]
+DEPENDS = {BBOX: ['C01_GenEq.v', 'C02_GenEq.v', 'C16_GenEq.v'], CORE: ['C01_GenEq.v', 'C01_GenEq2.v'], RND: ['C17_GenEq.v'],
+           GRID: ['C13_GenEq.v'], IMG: ['C13_GenEq.v'], ISO: ['C20_GenEq.v'], BKG: ['C11_GenEq.v'],
+           DCORE: ['C14_GenEq.v'], PEAK: ['C14_GenEq.v'], SEG: ['C05_GenEq.v'], SUTIL: ['C04_GenEq.v'],
+           SDET: ['C04_GenEq.v'], PPHOT: ['C12_GenEq.v'], CIRC: ['C01_GenEq2.v'], ELL: ['C01_GenEq2.v'],
+           RECT: ['C01_GenEq2.v'], STATS: ['C16_GenEq.v']}
+ALL_EQ = ['C01_GenEq.v', 'C01_GenEq2.v', 'C02_GenEq.v', 'C04_GenEq.v', 'C05_GenEq.v', 'C11_GenEq.v', 'C12_GenEq.v',
+          'C13_GenEq.v', 'C14_GenEq.v', 'C16_GenEq.v', 'C17_GenEq.v', 'C20_GenEq.v']
 
 # (name, kind, file, old, new, expectation)
 #   kind 'mutation': expectation = list of GenEq files that must fail (default: all that depend on the file)
@@ -59,7 +73,8 @@ def rew(name, file, old, new, expect='pass'):
 mut('overlap: `xmin >= shape[1]` -> `>`', BBOX, 'if (xmin >= shape[1] or', 'if (xmin > shape[1] or')
 mut('overlap: `ymax <= 0` -> `< 0`', BBOX, 'xmax <= 0 or ymax <= 0', 'xmax <= 0 or ymax < 0')
 mut('overlap: zero-size clause dropped (reverts fix C01-1)', BBOX,
-    'xmax <= 0 or ymax <= 0\n                or shape[0] <= 0 or shape[1] <= 0):', 'xmax <= 0 or ymax <= 0):')
+    'xmax <= 0 or ymax <= 0\n                or shape[0] <= 0 or shape[1] <= 0):', 'xmax <= 0 or ymax <= 0):',
+    fail=['C01_GenEq.v', 'C02_GenEq.v'])    # C16's own model copy has no zero-size clause: its tie assumes 0 < ny, nx
 mut('overlap: small slice `shape[0] - ymin` -> `shape[0]`', BBOX,
     'min(ymax - ymin, shape[0] - ymin)', 'min(ymax - ymin, shape[0])')
 mut('overlap: large slice max/min swapped', BBOX, 'slice(max(ymin, 0), min(ymax, shape[0]))',
@@ -76,14 +91,14 @@ mut('intersection: wrong field (other.ixmax for iymax)', BBOX, 'iymax = min(self
 mut('intersection: `<` -> `<=` in the emptiness test', BBOX, 'if ixmax < ixmin or iymax < iymin:',
     'if ixmax <= ixmin or iymax < iymin:', fail=['C01_GenEq.v'])
 mut('shape: (ny, nx) swapped', BBOX, 'return self.iymax - self.iymin, self.ixmax - self.ixmin',
-    'return self.ixmax - self.ixmin, self.iymax - self.iymin')
+    'return self.ixmax - self.ixmin, self.iymax - self.iymin', fail=['C01_GenEq.v', 'C02_GenEq.v'])
 mut('extent: `- 0.5` -> `+ 0.5` on ixmax', BBOX, 'return (self.ixmin - 0.5, self.ixmax - 0.5,',
     'return (self.ixmin - 0.5, self.ixmax + 0.5,', fail=['C01_GenEq.v'])
-mut('mask mode: rectangle exact -> 16 subpixels', CORE, "            subpixels = 32\n", "            subpixels = 16\n")
-mut('mask mode: `subpixels <= 0` -> `< 0`', CORE, 'or subpixels <= 0)):', 'or subpixels < 0)):')
+mut('mask mode: rectangle exact -> 16 subpixels', CORE, "            subpixels = 32\n", "            subpixels = 16\n", fail=['C01_GenEq.v'])
+mut('mask mode: `subpixels <= 0` -> `< 0`', CORE, 'or subpixels <= 0)):', 'or subpixels < 0)):', fail=['C01_GenEq.v'])
 mut('mask mode: center keeps the caller\'s subpixels', CORE,
     "            use_exact = 0\n            subpixels = 1\n        elif mode == 'subpixel':",
-    "            use_exact = 0\n        elif mode == 'subpixel':")
+    "            use_exact = 0\n        elif mode == 'subpixel':", fail=['C01_GenEq.v'])
 mut('py2intround: floor <-> ceil', RND, 'np.where(data >= 0, np.floor(data + 0.5),\n                     np.ceil(data - 0.5))',
     'np.where(data >= 0, np.ceil(data + 0.5),\n                     np.floor(data - 0.5))')
 mut('py2intround: `- 0.5` -> `+ 0.5`', RND, 'np.ceil(data - 0.5)', 'np.ceil(data + 0.5)')
@@ -109,6 +124,66 @@ mut('untranslatable construct (while loop) in get_overlap_slices', BBOX, '      
     '        xmin = self.ixmin\n        while xmin < 0:\n            xmin += 1\n        xmax = self.ixmax\n')
 mut('side effect (print) in from_float', BBOX, '        ixmin = math.floor(xmin + 0.5)\n',
     '        print(xmin)\n        ixmin = math.floor(xmin + 0.5)\n', fail=['C01_GenEq.v'])
+
+# ---- round 2: C14 ----
+mut('find_stars border: `(shape[0] - 1) // 2` -> `shape[0] // 2`', DCORE, 'yborder = (kernel.shape[0] - 1) // 2', 'yborder = kernel.shape[0] // 2')
+mut('find_stars border: xborder from the wrong axis', DCORE, 'xborder = (kernel.shape[1] - 1) // 2', 'xborder = (kernel.shape[0] - 1) // 2')
+mut('find_stars border: (yborder, xborder) swapped', DCORE, 'border_width = (yborder, xborder)', 'border_width = (xborder, yborder)')
+mut('find_stars border (kernel object): yborder = kernel.xradius', DCORE, 'yborder = kernel.yradius', 'yborder = kernel.xradius')
+mut('find_stars border (kernel object): xradius + 1', DCORE, 'xborder = kernel.xradius', 'xborder = kernel.xradius + 1')
+mut('find_stars footprint: size = int(ms) + 1', DCORE, 'size = int(min_separation)', 'size = int(min_separation) + 1')
+mut('find_stars footprint: size = ceil(ms)', DCORE, 'size = int(min_separation)', 'size = math.ceil(min_separation)')
+mut('find_stars footprint: `<=` -> `<` (open disk)', DCORE, '(xx**2 + yy**2) <= min_separation**2', '(xx**2 + yy**2) < min_separation**2')
+mut('find_stars footprint: yy**2 -> yy', DCORE, '(xx**2 + yy**2) <= min_separation**2', '(xx**2 + yy) <= min_separation**2')
+mut('find_peaks border: `if ny > 0` -> `>= 0` (the [-0:] pitfall)', PEAK, '        if ny > 0:\n', '        if ny >= 0:\n')
+mut('find_peaks border: `[-ny:, :]` -> `[-ny + 1:, :]`', PEAK, 'peak_goodmask[-ny:, :] = False', 'peak_goodmask[-ny + 1:, :] = False')
+mut('find_peaks border: `[:, :nx]` -> `[:nx, :]` (wrong axis)', PEAK, 'peak_goodmask[:, :nx] = False', 'peak_goodmask[:nx, :] = False')
+# ---- C05 ----
+mut('remove_border_labels: `[n - w:]` -> `[-w:]` (reverts fix C05-1)', SEG,
+    'border_mask[border_mask.shape[0] - border_width:] = True', 'border_mask[-border_width:] = True')
+mut('remove_border_labels: `[:w]` -> `[:w + 1]`', SEG, 'border_mask[:border_width] = True', 'border_mask[:border_width + 1] = True')
+mut('remove_border_labels guard: `>=` -> `>`', SEG, 'if border_width >= min(self.shape) / 2:', 'if border_width > min(self.shape) / 2:')
+mut('remove_border_labels guard: min -> max', SEG, 'if border_width >= min(self.shape) / 2:', 'if border_width >= max(self.shape) / 2:')
+mut('reassign_labels guard: `< 0` -> `<= 0`', SEG, '        if new_label < 0:\n', '        if new_label <= 0:\n')
+mut('reassign_labels guard: `< 0` -> `< -1`', SEG, '        if new_label < 0:\n', '        if new_label < -1:\n')
+mut('relabel_consecutive: `start_label <= 0` -> `< 0`', SEG, '        if start_label <= 0:\n', '        if start_label < 0:\n')
+mut('relabel_consecutive: `start_label <= 0` -> `<= 1`', SEG, '        if start_label <= 0:\n', '        if start_label <= 1:\n')
+mut('relabel_consecutive overflow: `- 1` dropped', SEG, 'if start_label + self.nlabels - 1 > np.iinfo', 'if start_label + self.nlabels > np.iinfo')
+mut('relabel_consecutive overflow: `>` -> `>=`', SEG, 'self.nlabels - 1 > np.iinfo(self.data.dtype).max', 'self.nlabels - 1 >= np.iinfo(self.data.dtype).max')
+mut('relabel_consecutive early return: `== start_label` -> `>=`', SEG, 'if ((self.labels[0] == start_label)', 'if ((self.labels[0] >= start_label)')
+mut('relabel_consecutive early return: `+ 1` dropped', SEG, 'and (self.labels[-1] - self.labels[0] + 1) == self.nlabels):', 'and (self.labels[-1] - self.labels[0]) == self.nlabels):')
+# ---- C12 ----
+mut('flags bit 1: `<` -> `<=`', PPHOT, "if row['npixfit'] < np.prod(self.fit_shape):", "if row['npixfit'] <= np.prod(self.fit_shape):")
+mut('flags bit 2: x compared with shape[0]', PPHOT, 'or row[xcolname] > shape[1] or row[ycolname] > shape[0]):', 'or row[xcolname] > shape[0] or row[ycolname] > shape[0]):')
+mut('flags bit 4: `<= 0` -> `< 0`', PPHOT, 'if row[fluxcolname] <= 0:', 'if row[fluxcolname] < 0:')
+mut('flags bit 2 adds 3', PPHOT, '                flags[index] += 2\n', '                flags[index] += 3\n')
+mut('invalid positions: `max_idx <= 0` -> `< 0`', PPHOT, 'np.any(max_idx <= 0, axis=1)', 'np.any(max_idx < 0, axis=1)')
+mut('invalid positions: ceil -> floor for min_idx', PPHOT, 'min_idx = np.ceil(positions - delta)', 'min_idx = np.floor(positions - delta)')
+mut('invalid positions: delta = fit_shape (not half)', PPHOT, 'delta = self.fit_shape / 2', 'delta = self.fit_shape / 1')
+# ---- C04 ----
+mut('binary structure: cross gets a corner', SUTIL, '((0, 1, 0), (1, 1, 1), (0, 1, 0))', '((1, 1, 0), (1, 1, 1), (0, 1, 0))')
+mut('binary structure: connectivity 8 -> 6', SUTIL, 'elif connectivity == 8:', 'elif connectivity == 6:')
+mut('detect: `data > threshold` -> `>=`', SDET, 'segment_img = data > threshold', 'segment_img = data >= threshold')
+mut('detect: `&= inverse_mask` -> `|=`', SDET, 'segment_img &= inverse_mask', 'segment_img |= inverse_mask')
+mut('detect: `count < npixels` -> `<=`', SDET, 'if np.count_nonzero(segment_mask) < npixels:', 'if np.count_nonzero(segment_mask) <= npixels:')
+mut('detect: `count < npixels - 1`', SDET, 'if np.count_nonzero(segment_mask) < npixels:', 'if np.count_nonzero(segment_mask) < npixels - 1:')
+mut('detect_sources: `npixels <= 0` -> `< 0`', SDET, 'if (npixels <= 0) or (int(npixels) != npixels):', 'if (npixels < 0) or (int(npixels) != npixels):')
+mut('detect_sources: `int(npixels) != npixels` -> `==`', SDET, 'if (npixels <= 0) or (int(npixels) != npixels):', 'if (npixels <= 0) or (int(npixels) == npixels):')
+# ---- C01 part 2 ----
+mut('centered_edges: `- 0.5` -> `+ 0.5` in xmin', CORE, 'xmin = bbox.ixmin - 0.5 - position[0]', 'xmin = bbox.ixmin + 0.5 - position[0]', fail=['C01_GenEq2.v'])
+mut('centered_edges: ymax uses position[0]', CORE, 'ymax = bbox.iymax - 0.5 - position[1]', 'ymax = bbox.iymax - 0.5 - position[0]', fail=['C01_GenEq2.v'])
+mut('circle extents: (r, 2r)', CIRC, '        return self.r, self.r\n', '        return self.r, 2 * self.r\n')
+mut('circle extents: (r + 1, r)', CIRC, '        return self.r, self.r\n', '        return self.r + 1, self.r\n')
+mut('circular annulus extents: r_out / 2', CIRC, 'return self.r_out, self.r_out', 'return self.r_out, self.r_out / 2')
+mut('circular annulus extents: inner radius (undeclared field -> untranslatable)', CIRC, 'return self.r_out, self.r_out', 'return self.r_in, self.r_out')
+mut('ellipse extents: semiminor_x uses cos', ELL, 'semiminor_x = semiminor_axis * -sin_theta', 'semiminor_x = semiminor_axis * cos_theta')
+mut('ellipse extents: x_extent mixes semiminor_y', ELL, 'x_extent = np.sqrt(semimajor_x**2 + semiminor_x**2)', 'x_extent = np.sqrt(semimajor_x**2 + semiminor_y**2)')
+mut('rectangle extents: half_width = width (not halved)', RECT, 'cos_theta = math.cos(theta_rad)\n        x_extent1 = abs(',
+    'cos_theta = math.cos(theta_rad)\n        half_width = width\n        x_extent1 = abs(')
+mut('rectangle extents: max -> min', RECT, 'x_extent = max(x_extent1, x_extent2)', 'x_extent = min(x_extent1, x_extent2)')
+# ---- C16 ----
+mut('centroid origin: maximum -> minimum', STATS, 'origin = np.transpose((np.maximum(self.bbox_xmin, 0),', 'origin = np.transpose((np.minimum(self.bbox_xmin, 0),')
+mut('centroid origin: y not clipped (reverts fix C16-1)', STATS, 'np.maximum(self.bbox_ymin, 0)))', 'self.bbox_ymin))')
 
 # ---------------- (c) harmless rewrites ----------------
 rew('overlap: disjuncts reordered', BBOX,
@@ -171,6 +246,11 @@ def _q(x):
 
 def _zt(t):
     return '(' + ', '.join(_z(v) for v in t) + ')'
+
+
+def math_mod():
+    import math
+    return math
 
 
 def differential(coqd, seed=20261001, n=40):
@@ -319,8 +399,141 @@ def differential(coqd, seed=20261001, n=40):
                     exec(l, env)
                 checks.append((f'{nm}_{var}{osy, osx, ox, oy, x, x_0}',
                                f'Qeq_bool ({nm}_{var} {_z(osy)} {_z(osx)} {_q(ox)} {_q(oy)} {_q(x)} {_q(x_0)}) {_q(float(env[var]))}'))
+    # ---------------- round 2 targets ----------------
+    import textwrap
+    from photutils.aperture import CircularAnnulus, CircularAperture, EllipticalAperture, RectangularAperture
+    from photutils.psf import PSFPhotometry
+    from photutils.segmentation.utils import _make_binary_structure
+    import astropy.units as u
+
+    def span_src(gen_name):
+        file, (lo, hi) = spans[gen_name]
+        return textwrap.dedent('\n'.join((REPO / file).read_text().splitlines()[lo - 1:hi]))
+
+    def test_src(gen_name):
+        t = ' '.join(l.strip() for l in span_src(gen_name).splitlines()).strip()
+        assert t.startswith('if ') and t.endswith(':'), t
+        return t[3:-1]
+
+    def b(x):
+        return 'true' if bool(x) else 'false'
+    NS = types.SimpleNamespace
+    for eb in (True, False):
+        for shp in ((1, 1), (3, 5), (4, 7), (8, 2), (9, 9)):
+            env = dict(exclude_border=eb, kernel=np.ones(shp), np=np)
+            exec(span_src('gen_find_stars_border'), env)
+            bw = env['border_width']
+            exp = 'None => true | _ => false' if bw is None else f'Some (a, c) => (a =? {_z(bw[0])})%Z && (c =? {_z(bw[1])})%Z | _ => false'
+            checks.append((f'stars_border{eb, shp}', f'match gen_find_stars_border {b(eb)} {_z(shp[0])} {_z(shp[1])} with {exp} end'))
+            env = dict(exclude_border=eb, kernel=NS(yradius=shp[0], xradius=shp[1]), np=np)
+            exec(span_src('gen_find_stars_border_kernel'), env)
+            bw = env['border_width']
+            exp = 'None => true | _ => false' if bw is None else f'Some (a, c) => (a =? {_z(bw[0])})%Z && (c =? {_z(bw[1])})%Z | _ => false'
+            checks.append((f'stars_border_kernel{eb, shp}', f'match gen_find_stars_border_kernel {b(eb)} {_z(shp[0])} {_z(shp[1])} with {exp} end'))
+    for ms in (0.25, 0.5, 1.0, 1.75, 2.0, 2.5, 3.0, 4.75, -1.5):
+        env = dict(min_separation=ms, math=math_mod(), np=np)
+        exec(span_src('gen_find_stars_size'), env)
+        checks.append((f'size{ms}', f'(gen_find_stars_size {_q(ms)} =? {_z(env["size"])})%Z'))
+        if ms > 0:
+            for xx in range(-3, 4):
+                for yy in (-2, 0, 1, 3):
+                    env = dict(min_separation=ms, xx=np.int64(xx), yy=np.int64(yy), np=np)
+                    exec(span_src('gen_find_stars_fp_elem'), env)
+                    checks.append((f'fp_elem{ms, xx, yy}', f'(gen_find_stars_fp_elem {_z(xx)} {_z(yy)} {_q(ms)} =? {_z(int(env["footprint"]))})%Z'))
+    for (H, W, by_, bx) in ((4, 5, 0, 0), (4, 5, 1, 0), (4, 5, 0, 2), (5, 4, 2, 1), (3, 3, 3, 3), (1, 6, 1, 2), (5, 5, 2, 2)):
+        env = dict(peak_goodmask=np.ones((H, W), dtype=bool), ny=by_, nx=bx, np=np)
+        exec(span_src('gen_find_peaks_border_hit'), env)
+        for y in range(H):
+            for x in range(W):
+                checks.append((f'peaks_border{H, W, by_, bx, y, x}',
+                               f'Bool.eqb (gen_find_peaks_border_hit {_z(by_)} {_z(bx)} {_z(H)} {_z(W)} {_z(y)} {_z(x)}) {b(not env["peak_goodmask"][y, x])}'))
+    for n in (1, 4, 7):
+        for w in range(-3, n + 3):
+            env = dict(border_mask=np.zeros(n, dtype=bool), border_width=w, np=np)
+            exec(span_src('gen_border_axis_hit'), env)
+            for i in range(n):
+                checks.append((f'border_axis{n, w, i}', f'Bool.eqb (gen_border_axis_hit {_z(w)} {_z(n)} {_z(i)}) {b(env["border_mask"][i])}'))
+    for shp in ((4, 4), (5, 9), (10, 3), (1, 1)):
+        for w in range(0, 6):
+            r = eval(test_src('gen_border_width_guard'), dict(self=NS(shape=shp), border_width=w))
+            checks.append((f'border_guard{shp, w}', f'Bool.eqb (gen_border_width_guard {_z(shp[0])} {_z(shp[1])} {_z(w)}) {b(r)}'))
+    for v in (-2, -1, 0, 1, 7):
+        checks.append((f'reassign_guard{v}', f'Bool.eqb (gen_reassign_new_label_guard {_z(v)}) {b(eval(test_src("gen_reassign_new_label_guard"), dict(new_label=v)))}'))
+        checks.append((f'relabel_start{v}', f'Bool.eqb (gen_relabel_start_guard {_z(v)}) {b(eval(test_src("gen_relabel_start_guard"), dict(start_label=v)))}'))
+    for dt in (np.uint8, np.int16):
+        mx = int(np.iinfo(dt).max)
+        for nl in (1, 3, 10):
+            for st in (1, mx - nl, mx - nl + 1, mx - nl + 2, mx):
+                r = eval(test_src('gen_relabel_overflow_guard'), dict(self=NS(nlabels=nl, data=np.zeros(1, dtype=dt)), start_label=st, np=np))
+                checks.append((f'relabel_overflow{dt.__name__, nl, st}', f'Bool.eqb (gen_relabel_overflow_guard {_z(nl)} {_z(st)} {_z(mx)}) {b(r)}'))
+    for labels in ([1, 2, 3], [2, 3, 4], [1, 3, 4], [5], [2, 4]):
+        for st in (1, 2, 5):
+            r = eval(test_src('gen_relabel_already_consecutive'), dict(self=NS(nlabels=len(labels), labels=np.array(labels)), start_label=st))
+            checks.append((f'relabel_consec{labels, st}', f'Bool.eqb (gen_relabel_already_consecutive {_z(len(labels))} {_z(st)} {_z(labels[0])} {_z(labels[-1])}) {b(r)}'))
+    for i in range(n_cases := 40):
+        fy, fx, H, W = rng.choice([3, 5]), rng.choice([3, 5, 7]), rng.randint(4, 9), rng.randint(4, 9)
+        npix = rng.choice([fy * fx, fy * fx - 1, 1, fy * fx + 1])
+        x = rng.choice([-0.25, 0.0, float(W), W + 0.5, dy(0, W)])
+        y = rng.choice([-0.25, 0.0, float(H), H + 0.5, dy(0, H)])
+        fl = rng.choice([-1.5, 0.0, 2.25])
+        env = dict(flags=np.zeros(1, dtype=int), index=0, row={'npixfit': npix, 'x': x, 'y': y, 'f': fl}, xcolname='x',
+                   ycolname='y', fluxcolname='f', shape=(H, W), self=NS(fit_shape=np.array((fy, fx))), np=np)
+        exec(span_src('gen_flags_1_2_4'), env)
+        checks.append((f'flags{fy, fx, npix, x, y, fl, H, W}',
+                       f'(gen_flags_1_2_4 {_z(fy)} {_z(fx)} 0%Z {_z(npix)} {_q(x)} {_q(y)} {_q(fl)} {_z(H)} {_z(W)} =? {_z(int(env["flags"][0]))})%Z'))
+        px, py_ = rng.choice([dy(-6, W + 6, 4), -fx / 2, W + fx / 2, W - 0.5]), rng.choice([dy(-6, H + 6, 4), -fy / 2, H + fy / 2])
+        fake = NS(_param_maps={'init_cols': {'x': 'x', 'y': 'y'}}, fit_shape=np.array((fy, fx)))
+        r = PSFPhotometry._get_invalid_positions(fake, {'x': np.array([px]), 'y': np.array([py_])}, (H, W))
+        checks.append((f'invalid_pos{fy, fx, H, W, px, py_}', f'Bool.eqb (gen_invalid_position {_z(fy)} {_z(fx)} {_z(H)} {_z(W)} {_q(px)} {_q(py_)}) {b(r[0])}'))
+    for c in (4, 8, 5, 0):
+        try:
+            fp = _make_binary_structure(2, c)
+            exp = 'PyGen.Ok fp => list_eqb (list_eqb Z.eqb) fp [' + '; '.join('[' + '; '.join(_z(v) for v in row) + ']' for row in fp) + '] | _ => false'
+        except ValueError:
+            exp = 'Raise ValueError => true | _ => false'
+        checks.append((f'structure{c}', f'match gen_binary_structure_2d {_z(c)} with {exp} end'))
+    for d in (-1, 0, 3):
+        for t in (-1, 0, 3, 5):
+            for im in (None, True, False):
+                env = dict(data=d, threshold=t, inverse_mask=im, warnings=__import__('warnings'), np=np)
+                exec(span_src('gen_segment_pixel'), env)
+                imt = 'None' if im is None else f'(Some {b(im)})'
+                checks.append((f'segment_pixel{d, t, im}', f'Bool.eqb (gen_segment_pixel {_z(d)} {_z(t)} {imt}) {b(env["segment_img"])}'))
+    for cnt in (0, 3, 5, 6):
+        r = eval(test_src('gen_segment_too_small'), dict(np=NS(count_nonzero=lambda m, c=cnt: c), segment_mask=None, npixels=5))
+        checks.append((f'too_small{cnt}', f'Bool.eqb (gen_segment_too_small 5%Z {_z(cnt)}) {b(r)}'))
+    for v in (5.0, 2.5, 0.0, -1.0, 0.5, 1.0, -2.5):
+        checks.append((f'npixels_invalid{v}', f'Bool.eqb (gen_npixels_invalid {_q(v)}) {b(eval(test_src("gen_npixels_invalid"), dict(npixels=v)))}'))
+    for bx_ in boxes[:12]:
+        pos = (dy(-5, 9), dy(-5, 9))
+        env = dict(bbox=bx_, position=pos)
+        exec(span_src('gen_centered_edges'), env)
+        bt = ' '.join(_z(v) for v in (bx_.ixmin, bx_.ixmax, bx_.iymin, bx_.iymax))
+        checks.append((f'centered_edges{bx_, pos}',
+                       f"(let '(a, b, c, d) := gen_centered_edges {_q(pos[0])} {_q(pos[1])} {bt} in Qeq_bool a {_q(env['xmin'])} && "
+                       f"Qeq_bool b {_q(env['xmax'])} && Qeq_bool c {_q(env['ymin'])} && Qeq_bool d {_q(env['ymax'])})"))
+    for r_ in (0.5, 2.25, 7.0):
+        e = CircularAperture((1.0, 2.0), r_)._xy_extents
+        checks.append((f'circle_extents{r_}', f"(let '(a, b) := gen_circle_extents {_q(r_)} in Qeq_bool a {_q(e[0])} && Qeq_bool b {_q(e[1])})"))
+        e = CircularAnnulus((1.0, 2.0), r_, r_ + 1.5)._xy_extents
+        checks.append((f'annulus_extents{r_}', f"(let '(a, b) := gen_circular_annulus_extents {_q(r_ + 1.5)} in Qeq_bool a {_q(e[0])} && Qeq_bool b {_q(e[1])})"))
+        # theta = 0: cos = 1, sin = 0 exactly; sqrt of a perfect dyadic square is exact, so extent**2 = radicand
+        e = EllipticalAperture._calc_extents(r_ + 1.0, r_, 0.0 * u.rad)
+        checks.append((f'ellipse_extents{r_}', f"(let '(a, b) := gen_ellipse_extents {_q(r_ + 1.0)} {_q(r_)} 0 (fun _ => 1) (fun _ => 0) (fun x => x) in "
+                                               f"Qeq_bool a {_q(float(e[0]) ** 2)} && Qeq_bool b {_q(float(e[1]) ** 2)})"))
+        e = RectangularAperture._calc_extents(r_ + 1.0, r_, 0.0 * u.rad)
+        checks.append((f'rect_extents{r_}', f"(let '(a, b) := gen_rectangle_extents {_q(r_ + 1.0)} {_q(r_)} 0 (fun _ => 1) (fun _ => 0) in "
+                                            f"Qeq_bool a {_q(float(e[0]))} && Qeq_bool b {_q(float(e[1]))})"))
+    for vx in (-3, 0, 4):
+        for vy in (-1, 0, 2):
+            env = dict(self=NS(bbox_xmin=np.array([vx]), bbox_ymin=np.array([vy])), np=np)
+            exec(span_src('gen_centroid_origin'), env)
+            o = env['origin'][0]
+            checks.append((f'centroid_origin{vx, vy}', f"(let '(a, b) := gen_centroid_origin {_z(vx)} {_z(vy)} in (a =? {_z(o[0])})%Z && (b =? {_z(o[1])})%Z)"))
+
     body = ('From Coq Require Import ZArith QArith List Bool String.\n'
-            'From PV Require Import lib.Cases lib.PyGen gen.Gen_bbox gen.Gen_apcore gen.Gen_round gen.Gen_psf gen.Gen_isophote gen.Gen_bkg.\n'
+            'From PV Require Import lib.Cases lib.PyGen gen.Gen_bbox gen.Gen_apcore gen.Gen_round gen.Gen_psf gen.Gen_isophote gen.Gen_bkg gen.Gen_detection gen.Gen_segm '
+            'gen.Gen_psfphot gen.Gen_detect gen.Gen_apshape gen.Gen_apstats.\n'
             'Import ListNotations.\n'
             'Definition z2_eqb (a b : Z * Z) := ((fst a =? fst b) && (snd a =? snd b))%Z.\n'
             'Definition sl_eqb (a b : option ((Z * Z) * (Z * Z))) := match a, b with None, None => true '
@@ -350,7 +563,10 @@ REFUSED = [
     ('global name', 'def f(a):\n    return a + OFFSET\n'),
     ('side effect (print)', 'def f(a):\n    print(a)\n    return a\n'),
     ('attribute write', 'def f(a):\n    a.x = 1\n    return 0\n'),
-    ('int() of a float', 'def f(x):\n    return int(x)\n'),
+    ('int() of a non-number', 'def f(a):\n    return int("3")\n'),
+    ('warnings.simplefilter outside a catch_warnings block', 'def f(a):\n    warnings.simplefilter("ignore")\n    return a\n'),
+    ('np.ones with a non-literal shape', 'def f(a):\n    return np.ones((a, 3))\n'),
+    ('undeclared uninterpreted function', 'def f(x):\n    return np.sqrt(x)\n'),
     ('// on floats', 'def f(x):\n    return x // 2\n'),
     ('round()', 'def f(x):\n    return round(x)\n'),
     ('division inside a short-circuit operand', 'def f(a, b):\n    return a > 0 and 1 / b > 2\n'),
@@ -387,9 +603,42 @@ def refused():
     return wrong
 
 
+# ---- round 2 rewrites ----
+rew('find_stars border: `(-1 + shape[0]) // 2`', DCORE, 'yborder = (kernel.shape[0] - 1) // 2', 'yborder = (-1 + kernel.shape[0]) // 2')
+rew('find_stars size: explicit floor/ceil instead of int()', DCORE, 'size = int(min_separation)',
+    'size = math.floor(min_separation) if min_separation >= 0 else math.ceil(min_separation)')
+rew('find_stars footprint: comparison mirrored, terms commuted', DCORE, '(xx**2 + yy**2) <= min_separation**2', 'min_separation**2 >= (yy**2 + xx**2)')
+rew('find_peaks border: `0 < ny`, `[0:ny, :]`', PEAK, '        if ny > 0:\n            peak_goodmask[:ny, :] = False', '        if 0 < ny:\n            peak_goodmask[0:ny, :] = False')
+rew('remove_border_labels: `[0:w]`', SEG, 'border_mask[:border_width] = True', 'border_mask[0:border_width] = True')
+rew('remove_border_labels guard: `2 * w >= min(shape)`', SEG, 'if border_width >= min(self.shape) / 2:', 'if 2 * border_width >= min(self.shape):')
+rew('reassign_labels guard: `0 > new_label`', SEG, '        if new_label < 0:\n', '        if 0 > new_label:\n')
+rew('relabel_consecutive: `not start_label > 0`', SEG, '        if start_label <= 0:\n', '        if not start_label > 0:\n')
+rew('relabel_consecutive overflow: mirrored, terms commuted', SEG, 'if start_label + self.nlabels - 1 > np.iinfo(self.data.dtype).max:',
+    'if np.iinfo(self.data.dtype).max < self.nlabels + start_label - 1:')
+rew('relabel_consecutive early return: conjuncts swapped', SEG,
+    'if ((self.labels[0] == start_label)\n                and (self.labels[-1] - self.labels[0] + 1) == self.nlabels):',
+    'if ((self.labels[-1] - self.labels[0] + 1) == self.nlabels\n                and (start_label == self.labels[0])):')
+rew('flags bit 2: disjuncts reordered', PPHOT, 'if (row[xcolname] < 0 or row[ycolname] < 0\n', 'if (row[ycolname] < 0 or row[xcolname] < 0\n')
+rew('flags: bit 4 tested before bit 1 would change nothing -- here: `0 >= flux`', PPHOT, 'if row[fluxcolname] <= 0:', 'if 0 >= row[fluxcolname]:')
+rew('invalid positions: the two np.any operands swapped', PPHOT, 'return np.any(max_idx <= 0, axis=1) | np.any(min_idx >= shape, axis=1)',
+    'return np.any(min_idx >= shape, axis=1) | np.any(max_idx <= 0, axis=1)')
+rew('binary structure: `4 == connectivity`', SUTIL, 'if connectivity == 4:', 'if 4 == connectivity:')
+rew('detect: `threshold < data`', SDET, 'segment_img = data > threshold', 'segment_img = threshold < data')
+rew('detect: `npixels > count`', SDET, 'if np.count_nonzero(segment_mask) < npixels:', 'if npixels > np.count_nonzero(segment_mask):')
+rew('detect_sources: validation disjuncts swapped', SDET, 'if (npixels <= 0) or (int(npixels) != npixels):', 'if (int(npixels) != npixels) or (npixels <= 0):')
+rew('centered_edges: `ixmin - (0.5 + position[0])`', CORE, 'xmin = bbox.ixmin - 0.5 - position[0]', 'xmin = bbox.ixmin - (0.5 + position[0])')
+rew('circle extents: parenthesised tuple', CIRC, '        return self.r, self.r\n', '        return (self.r, self.r)\n')
+rew('circular annulus extents: via a local', CIRC, 'return self.r_out, self.r_out', 'r = self.r_out\n        return r, r')
+rew('ellipse extents: `-semiminor_axis * sin_theta`', ELL, 'semiminor_x = semiminor_axis * -sin_theta', 'semiminor_x = -semiminor_axis * sin_theta')
+rew('rectangle extents: factors commuted', RECT, 'x_extent1 = abs((half_width * cos_theta) - (half_height * sin_theta))',
+    'x_extent1 = abs((cos_theta * half_width) - (sin_theta * half_height))')
+rew('rectangle extents: max arguments swapped', RECT, 'x_extent = max(x_extent1, x_extent2)', 'x_extent = max(x_extent2, x_extent1)', 'closed')
+rew('centroid origin: `np.maximum(0, bbox_xmin)`', STATS, 'np.maximum(self.bbox_xmin, 0)', 'np.maximum(0, self.bbox_xmin)')
+
+
 def prepare_coq(d):
     (d / 'lib').mkdir(parents=True, exist_ok=True)
-    for vo in list((COQ / 'lib').glob('*.vo')) + list(COQ.glob('C*_Model.vo')) + list(COQ.glob('C*_Proofs*.vo')):
+    for vo in list((COQ / 'lib').glob('*.vo')) + list(COQ.glob('C*_Model.vo')) + list(COQ.glob('C*_Proofs*.vo')) + list(COQ.glob('C04_Path*.vo')):
         dst = d / vo.relative_to(COQ)
         if not dst.exists():
             dst.symlink_to(vo)
